@@ -373,9 +373,37 @@ impl Ctx {
             }
             let t = m.current_ticket();
             o["ticket"] = json!({"seq": t.seq_no, "cap": t.capacity_bytes, "issuer": t.issuer, "verified": t.verified});
+            o["bound"] = json!(m.get_memory_binding().map(|b| mem_small(&b.memory_id.to_string())).unwrap_or(0));
         }
         o
     }
+}
+
+/// dashboard memory ids of the scenarios: small integers <-> UUIDs
+fn mem_uuid(k: i64) -> String {
+    format!("00000000-0000-4000-8000-{:012x}", k as u64)
+}
+fn mem_small(u: &str) -> i64 {
+    if u.starts_with("00000000-0000-4000-8000-") { i64::from_str_radix(&u[24..], 16).unwrap_or(-1) } else { -1 }
+}
+fn ticket_key(seed: u8) -> ed25519_dalek::SigningKey {
+    ed25519_dalek::SigningKey::from_bytes(&[seed; 32])
+}
+pub fn b64(bytes: &[u8]) -> String {
+    const T: &[u8; 64] = b"ABCDEFGHIJKLMNOPQRSTUVWXYZabcdefghijklmnopqrstuvwxyz0123456789+/";
+    let mut out = String::new();
+    for ch in bytes.chunks(3) {
+        let n = (ch[0] as u32) << 16 | (*ch.get(1).unwrap_or(&0) as u32) << 8 | *ch.get(2).unwrap_or(&0) as u32;
+        out.push(T[(n >> 18) as usize & 63] as char);
+        out.push(T[(n >> 12) as usize & 63] as char);
+        out.push(if ch.len() > 1 { T[(n >> 6) as usize & 63] as char } else { '=' });
+        out.push(if ch.len() > 2 { T[n as usize & 63] as char } else { '=' });
+    }
+    out
+}
+/// the crate trusts the test key for signed tickets from here on (hook, cfg memvid_verif)
+pub fn trust_test_ticket_key() {
+    memvid_core::verif::set_ticket_pubkey(Some(b64(ticket_key(7).verifying_key().as_bytes())));
 }
 
 fn res_ok(v: Value) -> Value {
@@ -787,6 +815,68 @@ pub fn exec(ctx: &mut Ctx, op: &Value) -> (Value, Value) {
                 Some(m) => guard(|| m.apply_ticket(t), |_| json!(null)),
             }
         }
+        "bind_only" | "bind" => {
+            let k = op["mem"].as_i64().unwrap_or(1);
+            let b: memvid_core::types::MemoryBinding = serde_json::from_value(json!({"memory_id": mem_uuid(k), "memory_name": format!("memory {k}"),
+                "bound_at": "2026-01-01T00:00:00Z", "api_url": "https://verif.invalid"})).expect("binding");
+            match ctx.mem.as_mut() {
+                None => json!({"ok": false, "err": "NoHandle"}),
+                Some(m) if name == "bind_only" => guard(|| m.set_memory_binding_only(b), |_| json!(null)),
+                Some(m) => {
+                    let t = Ticket { issuer: op["issuer"].as_str().unwrap_or("verif").to_string(), seq_no: op["seq"].as_i64().unwrap_or(0),
+                                     expires_in_secs: 0, capacity_bytes: op["cap"].as_u64() };
+                    guard(|| m.bind_memory(b, t), |_| json!(null))
+                }
+            }
+        }
+        "unbind" => match ctx.mem.as_mut() {
+            None => json!({"ok": false, "err": "NoHandle"}),
+            Some(m) => guard(|| m.unbind_memory(), |_| json!(null)),
+        },
+        "signed_ticket" => {
+            // C25: a ticket signed with the test key the crate was told to trust (verif::set_ticket_pubkey), then tampered
+            // with as the scenario says.  x.authentic = the signature is over exactly the fields presented, by that key.
+            use ed25519_dalek::Signer;
+            let tamper = op["tamper"].as_str().unwrap_or("none");
+            let named = op["mem"].as_i64().unwrap_or(1);
+            let issuer = op["issuer"].as_str().unwrap_or("memvid.com").to_string();
+            let seq = op["seq"].as_i64().unwrap_or(0);
+            let exp = op["exp"].as_u64().unwrap_or(3600);
+            let cap = op["cap"].as_u64();
+            let msg = |mem: i64, issuer: &str, seq: i64, exp: u64, cap: Option<u64>| {
+                format!("{{\"version\":1,\"memory_id\":\"{}\",\"issuer\":{},\"seq_no\":{},\"expires_in\":{},\"capacity_bytes\":{}}}",
+                        mem_uuid(mem), serde_json::to_string(issuer).unwrap(), seq, exp, cap.map(|c| c.to_string()).unwrap_or("null".into()))
+            };
+            let key = if tamper == "wrongkey" { ticket_key(9) } else { ticket_key(7) };
+            // the fields that are signed vs the fields that are presented
+            let (s_mem, s_issuer, s_seq, s_exp, s_cap) = match tamper {
+                "mem" => (named + 1, issuer.clone(), seq, exp, cap),
+                "issuer" => (named, format!("{issuer}x"), seq, exp, cap),
+                "seq" => (named, issuer.clone(), seq - 1, exp, cap),
+                "exp" => (named, issuer.clone(), seq, exp + 1, cap),
+                "cap" => (named, issuer.clone(), seq, exp, Some(cap.unwrap_or(0) / 2 + 1)),
+                "cap_none" => (named, issuer.clone(), seq, exp, if cap.is_some() { None } else { Some(1) }),
+                _ => (named, issuer.clone(), seq, exp, cap),
+            };
+            let mut sig = key.sign(msg(s_mem, &s_issuer, s_seq, s_exp, s_cap).as_bytes()).to_bytes().to_vec();
+            match tamper {
+                "sig_flip" => sig[op["at"].as_u64().unwrap_or(5) as usize % 64] ^= 0x40,
+                "sig_short" => { sig.truncate(63); }
+                "sig_long" => sig.push(0),
+                "sig_long2" => sig.extend_from_slice(&[7u8; 64]),
+                "sig_zero" => sig = vec![0u8; 64],
+                "sig_empty" => sig.clear(),
+                _ => {}
+            }
+            let authentic = matches!(tamper, "none");
+            extra = json!({"mem": named, "authentic": authentic, "tamper": tamper});
+            let t: memvid_core::types::SignedTicket = serde_json::from_value(json!({"issuer": issuer, "seq_no": seq, "expires_in_secs": exp,
+                "capacity_bytes": cap, "memory_id": mem_uuid(named), "signature": b64(&sig)})).expect("signed ticket");
+            match ctx.mem.as_mut() {
+                None => json!({"ok": false, "err": "NoHandle"}),
+                Some(m) => guard(|| m.apply_signed_ticket(t), |_| json!(null)),
+            }
+        }
         "verify" => {
             // static call on the path; the handle (if any) stays open
             let deep = op["deep"].as_bool().unwrap_or(true);
@@ -1106,6 +1196,7 @@ pub fn run(args: &[String]) -> i32 {
     let mut out = std::io::BufWriter::new(std::fs::File::create(&args[1]).expect("create out"));
     // silence panic messages of the code under test (they are data, logged in the event)
     std::panic::set_hook(Box::new(|_| {}));
+    trust_test_ticket_key();
     for sc in input["scenarios"].as_array().expect("scenarios") {
         let mut ctx = Ctx::new();
         let sid = sc["id"].clone();
@@ -1117,7 +1208,7 @@ pub fn run(args: &[String]) -> i32 {
             crate::util::fsrec_mark(&format!("end {}", n + 1));
             let name = op["op"].as_str().unwrap_or("");
             let force_full = op["full"].as_bool().unwrap_or(false)
-                || matches!(name, "create" | "open" | "open_ro" | "commit" | "vacuum" | "doctor" | "commit_skip" | "finalize" | "ticket");
+                || matches!(name, "create" | "open" | "open_ro" | "commit" | "vacuum" | "doctor" | "commit_skip" | "finalize" | "ticket" | "signed_ticket" | "bind" | "bind_only" | "unbind");
             let obs = ctx.observe(force_full);
             let mut ev = json!({"ev": name, "run": sid, "n": n + 1, "args": op, "res": res, "x": extra,
                                 "nfid_before": nfid_before, "obs": obs});
